@@ -17,7 +17,8 @@ SAFE = "abcdefghijklmnopqrstuvwxyzABCXYZ0123456789_.+,:@%=-"
 HOSTILE_NAMES = ["a b", " lead", "trail ", "q'uote", 'd"q', "-dash", "--opt=x", "ünï", "日本", "$HOME", "`id`", "a;b", "a&b",
                  "a|b", "star*", "qm?", "[x]", "back\\slash", "new\nline", "tab\tx", "~", "#c", "(p)", "{b}", "!", "a>b", "é" * 60,
                  "L" * 120, "%s", "a=b", ".hidden", "..."]
-UNSAFE_ROOTS = ["a b", "-dash", "$HOME", "a;b", "star*", "a>b", "(p)", "x\ty"]
+# roots a shell mangles -- chosen so that the mangled command is harmless ("$HOME" would make tar archive the home directory)
+UNSAFE_ROOTS = ["a b", "-dash", "$nope", "a;b", "star*", "a>b", "(p)", "x\ty"]
 HANGING_ROOTS = ["q'uote", 'd"q']     # an unbalanced quote makes the persistent shell wait for ever: few of these, they cost a timeout
 
 
@@ -118,23 +119,28 @@ class C22(Prop):
     LEVEL_TEXT = (
         "Theorems (Coq, closed under the global context) over a tree model (File bytes exec | Dir | Link) of the transfer path: "
         "tar archives as member lists (create with -h dereference, extract, --strip-components 1, -O|tee), cp -rf, ln -snf, "
-        "shutil.copytree/copy, os.symlink, extract_tar_stream's per-member path arithmetic, and the decision tables "
-        "(_copy, copy_same_connector, get_local_to_remote_destination, get_remote_to_remote_write_command, _local_copy, "
-        "transfer_data's registered path). Proved for every well-formed source tree of any size, every route "
-        "(local/remote x local/remote, same location, other location), destination absent or an existing directory, writable "
-        "or read-only: the entry at the registered path is a link to the source (read-only only) or a copy equal to the "
-        "dereferenced source, other entries of an existing directory are kept -- except the two cells proved refuted with "
-        "witnesses (renamed executable file remote->remote loses its exec bit through tee; writable local directory copy into "
-        "an existing directory is merged into it instead of landing at the registered path). Command lines reach the shell "
-        "verbatim only for roots made of shell-safe characters (theorem over Shell.sh_words; refuted witness for a blank). "
-        "The model is tied to /repo by running the real transfer_data (local connector + shell-backed fake remote under "
-        "/var/tmp) on random trees and comparing destination trees with the model's, and by a byte-for-byte oracle.")
+        "shutil.copytree/copy, os.symlink, extract_tar_stream's member-by-member loop, and the decision tables (_copy, "
+        "copy_same_connector, get_local_to_remote_destination, get_remote_to_remote_write_command, _local_copy, transfer_data's "
+        "registered path). Proved for every source tree with unique names of any size, every route (local/remote x local/remote, "
+        "same location, other location), destination absent or an existing directory, writable or read-only, in every cell of "
+        "the routing tables but two: the entry at the registered path is a link to the source (read-only only) or a copy equal to "
+        "the dereferenced source, and other entries of an existing directory are kept; the extract_tar_stream loop and "
+        "--strip-components 1 are proved equal to plain extraction at the registered place; dereferencing keeps trees well "
+        "formed. The two excluded cells are proved to be the only ones excluded and are refuted with witnesses (a renamed "
+        "executable file remote->remote loses its exec bit through tee; a writable local copy of a directory into an existing "
+        "directory is merged into it instead of landing at the registered path). Command lines reach the shell verbatim only "
+        "for roots made of shell-safe characters (theorem over Shell.sh_words; refuted witness for a blank). The model is tied "
+        "to /repo by running the real transfer_data (local connector + shell-backed fake remote under /var/tmp) on random "
+        "trees and comparing destination trees, registered paths, their data types and availability with the model's, and by a "
+        "byte-for-byte oracle.")
     LEVEL_NOTE = (
         "Partial: tool semantics (GNU tar, cp, ln, tee, mkdir, test, Python tarfile/shutil) are modelled from their manuals and "
         "validated only by the runs; paths are component lists (string path arithmetic of posixpath is exercised, not proved); "
-        "the registry half ('registered as an available copy') is the computed path plus C21's theorems, checked by the oracle on "
-        "the real data manager; wrapped remotes (mount points) and multi-destination fan-out are not covered; real ssh/"
-        "container/k8s connectors are replaced by a shell-backed BaseConnector subclass.")
+        "the registry half ('registered as an available copy') is, in Coq, only the computed path and data type -- the registry "
+        "itself is C21's model (DataReg), not re-imported here; what the real data manager lists for the destination after the "
+        "transfer (path, PRIMARY/SYMBOLIC_LINK, available) is compared in the correspondence and demanded by the oracle; wrapped "
+        "remotes (mount points) and multi-destination fan-out are not covered; real ssh/container/k8s connectors are replaced by "
+        "a shell-backed BaseConnector subclass.")
     TECHNIQUE = ("Coq proof (nested induction over trees / member lists) + vm_compute correspondence against real transfer_data runs "
                  "+ byte-for-byte oracle")
     RULE = ("transfer: random source (file or tree of 0..30 entries: empty files/dirs, binary contents up to 200 KiB quick / 1 MiB "
@@ -235,6 +241,28 @@ class C22(Prop):
             # a directory that now contains a link is no longer a legal target, nor are its ancestors
             targets = [(p, t) for p, t in targets if not (t["t"] == "d" and has_link(t))]
 
+    def _add_hard(self, rng, tree):
+        """One hard link placed in a sub-directory when there is one, to a regular file of another directory when possible
+        (exercises the linkname arithmetic of extract_tar_stream and GNU tar's --strip-components on link targets)."""
+        files, dirs = [], []
+
+        def walk(t, path):
+            if t["t"] == "d":
+                dirs.append((path, t))
+                for n, c in t["c"]:
+                    walk(c, path + [n])
+            elif t["t"] == "f":
+                files.append(path)
+        walk(tree, [])
+        if not files:
+            return
+        sub = [d for d in dirs if d[0]]
+        dpath, d = rng.choice(sub) if sub and rng.random() < 0.8 else rng.choice(dirs)
+        other = [f for f in files if f[:-1] != dpath]
+        tpath = rng.choice(other) if other and rng.random() < 0.8 else rng.choice(files)
+        used = {n for n, _ in d["c"]}
+        d["c"].append([self._name(rng, used), {"t": "h", "of": tpath}])
+
     def _sort(self, t):
         if t["t"] == "d":
             t["c"].sort(key=lambda e: e[0].encode("utf-8", "surrogateescape"))
@@ -246,6 +274,8 @@ class C22(Prop):
             return self._file(rng, tier)
         t = self._dir(rng, tier, [rng.choice([3, 8, 15, 30])], 0)
         self._add_links(rng, t)
+        if rng.random() < 0.25:
+            self._add_hard(rng, t)
         self._sort(t)
         return t
 
@@ -278,7 +308,18 @@ class C22(Prop):
                                  ["sub", {"t": "d", "c": [["k", {"t": "f", "b": "41", "x": False}], ["up", {"t": "l", "to": "../a b"}]]}],
                                  ["z", {"t": "f", "b": "", "x": False}]]}
         fil = {"t": "f", "b": "deadbeef", "x": True}
+        hard = {"t": "d", "c": [["f0", {"t": "f", "b": "6869", "x": True}],
+                                ["sub", {"t": "d", "c": [["deep", {"t": "d", "c": [["hl2", {"t": "h", "of": ["sub", "g"]}]]}],
+                                                         ["g", {"t": "f", "b": "67", "x": False}],
+                                                         ["hl", {"t": "h", "of": ["f0"]}]]}]]}
         if tier != "extended":
+            for (src, dst) in ROUTES:
+                for dstate in ("absent", "dir"):
+                    for dname in ("s", "other"):
+                        # remote->local is where StreamFlow's own link-name arithmetic runs: always all four cells
+                        if rng.random() < (0.4 if tier == "quick" else 1.0) or (src, dst) == ("R1a", "L"):
+                            cases.append({"f": "xfer", "src": src, "dst": dst, "sname": "s", "dname": dname, "dstate": dstate,
+                                          "w": rng.random() < 0.5, "tree": hard})
             for (src, dst) in ROUTES:
                 for tree in (small, fil):
                     for dstate in ("absent", "dir"):
@@ -319,6 +360,7 @@ class C22(Prop):
         atexit.register(shutil.rmtree, self.scratch, True)
         self.shutil = shutil
         self.n = 0
+        os.chdir(self.scratch)
 
         class ShRemote(BaseConnector):
             """A 'remote' location whose file system is a directory of this host, reached only through /bin/sh:
@@ -424,6 +466,7 @@ class C22(Prop):
         self.n += 1
         base = os.path.join(self.scratch, f"c{self.n}")
         os.makedirs(base)
+        os.chdir(base)        # whatever a mangled command line drops in the working directory stays in the scratch area
         ctx = self.build_context({"database": {"type": "default", "config": {"connection": ":memory:"}}, "path": base})
         dm = ctx.deployment_manager
         await dm.deploy(self.DC(name="__LOCAL__", type="local", config={}, external=True, lazy=False, workdir=base))
@@ -465,13 +508,20 @@ class C22(Prop):
                 ls = ctx.data_manager.get_data_locations(path=p, deployment=dl.deployment, location_name=dl.name)
             except Exception:  # noqa
                 ls = []
-            if any(l.path == p for l in ls):
-                reg.append(label)
+            for ty in sorted({l.data_type.name + ("" if l.available.is_set() else ":unavailable") for l in ls if l.path == p}):
+                reg.append(f"{label}:{ty}")
         out["reg"] = reg
         out["seen"] = {"dst": self._follow(dstb), "dst/s": self._follow(inner.encode("utf-8", "surrogateescape"))}
         out["cmds"] = [[k, s.replace(self.scratch, "$")] for d in ("r1", "r2") for (k, s) in dm.get_connector(d).log]
         try:
             await asyncio.wait_for(dm.undeploy_all(), 8 if out["err"] != "timeout" else 2)
+        except Exception:  # noqa
+            pass
+        os.chdir(self.scratch)
+        try:
+            import psutil
+            for ch in psutil.Process().children(recursive=True):
+                ch.kill()
         except Exception:  # noqa
             pass
         self.shutil.rmtree(base, True)
@@ -498,8 +548,8 @@ class C22(Prop):
         top = o["dst"] if place == "dst" else next((x for n, x in (o["dst"] or {}).get("c", []) if n == c["sname"]), None)
         if c["w"] and top is not None and top["t"] == "l":
             return ("writable-link", "a writable transfer produced a symbolic link to the source")
-        if place not in o["reg"]:
-            return ("not-registered", f"destination {place} is not registered as a copy on the destination location: {o['reg']}")
+        if not any(r.startswith(place + ":") and not r.endswith(":unavailable") for r in o["reg"]):
+            return ("not-registered", f"destination {place} is not registered as an available copy on the destination location: {o['reg']}")
         if c["dstate"] == "dirpre":
             keep = next((x for n, x in (o["dst"] or {}).get("c", []) if n == "zz keep"), None)
             if keep != {"t": "f", "c": ctok(b"keep"), "x": False}:
